@@ -53,7 +53,10 @@ fn main() {
 
     util::dump_hashes("sim-gc", &gb.hashes);
     util::dump_hashes("sim-heap", &hb.hashes);
-    if gb.determinism_mismatches + hb.determinism_mismatches > 0 {
+    // a determinism mismatch is a harness error only when the batch found no violation: a tree that violates the
+    // property (e.g. outcomes depending on addresses) is often nondeterministic as well, and its violations are
+    // reported from their replay files
+    if gb.determinism_mismatches + hb.determinism_mismatches > 0 && gb.violations.is_empty() && hb.violations.is_empty() {
         eprintln!("HARNESS ERROR: determinism sample mismatch (sim-gc {} of {}, sim-heap {} of {})", gb.determinism_mismatches, gb.determinism_reexecuted, hb.determinism_mismatches, hb.determinism_reexecuted);
         std::process::exit(2);
     }
